@@ -22,6 +22,8 @@ EXTENDS VT500, TLC
 CONSTANTS MaxLen,        \* input length bound
           Cap,           \* channel capacity (2 in the code)
           AllowClose,    \* TRUE: the Closer may act
+          StallFire,     \* TRUE: the run loop may be descheduled at the top of its loop for longer than the
+                         \* ESC delay, so the timer of a pending ESC can fire there too (not only during silence)
           FixedTimer     \* TRUE: model of the repaired callback (whole callback under the mutex, owner check)
 
 Syms == {27, 91, 65}     \* ESC, "[", "A"
@@ -165,7 +167,8 @@ RClose ==
 (* ---- timer callback (as in the code) --------------------------------------- *)
 TFire(k) ==
   /\ tm[k] = "armed" /\ k = last
-  /\ rpc = "read" /\ rd = avail /\ NextGap = "long"      \* silence: the delay elapses
+  /\ \/ rpc = "read" /\ rd = avail /\ NextGap = "long"   \* silence: the delay elapses
+     \/ StallFire /\ rpc = "top"                          \* ... or the run loop stalls before its next iteration
   /\ tm' = [tm EXCEPT ![k] = "fired"]
   /\ UNCHANGED <<inp, eofGap, avail, rd, rpc, sym, st, owner, mu, last, buf, sendq, closed, panic, got, closeReq, clobber, pend, expired, finished>>
 
